@@ -333,7 +333,25 @@ def run(eng, R):
         for fn in ("set_fit_parameter_values", "set_all_fit_parameter_values"):
             f = get_func(p, NF, fn)
             src = _txt(f.node)
-            ok = "self._minimizer.set(_par_name, _new_value)" in src and (".value = _new_value" in src)
+            # both stores in one loop over (name, value): the graph node of that name and the backend (either may be reached through a local)
+            ok = False
+            for lp in [n for n in ast.walk(f.node) if isinstance(n, ast.For) and isinstance(n.target, ast.Tuple) and len(n.target.elts) in (2, 3) and all(isinstance(x, ast.Name) for x in n.target.elts)]:
+                nm, val = lp.target.elts[0].id, lp.target.elts[-1].id
+                node_var = None
+                if len(lp.target.elts) == 3:
+                    # (name, node, value) over the parallel lists of names and nodes of the fit parameters
+                    if not (isinstance(lp.iter, ast.Call) and _txt(lp.iter.func) == "zip" and [_txt(a) for a in lp.iter.args[:2]] == ["self._fit_par_names", "self._fit_pars"]):
+                        continue
+                    node_var = lp.target.elts[1].id
+                backend = graph = False
+                for x in ast.walk(lp):
+                    if isinstance(x, ast.Call) and isinstance(x.func, ast.Attribute) and x.func.attr == "set" and [_txt(a) for a in x.args] == [nm, val] \
+                            and _txt(common.resolve_local(f.node, x.func.value)) == "self._minimizer":
+                        backend = True
+                    if isinstance(x, ast.Assign) and isinstance(x.targets[0], ast.Attribute) and x.targets[0].attr == "value" and _txt(x.value) == val:
+                        tgt = common.resolve_local(f.node, x.targets[0].value)
+                        graph = graph or _txt(tgt) == "self._nx.get(%s)" % nm or (node_var is not None and _txt(tgt) == node_var)
+                ok = ok or (backend and graph)
             R.ob("S-fix", "%s.%s" % (NF, fn), ok, (f.file, f.lineno), "%s must set the value in the graph and in the backend" % fn)
         for cname, fn, callee in (("FitBase", "fix_parameter", "fix_parameter"), ("FitBase", "release_parameter", "release_parameter"), ("FitBase", "limit_parameter", "limit_parameter"),
                                   ("FitBase", "unlimit_parameter", "unlimit_parameter")):
